@@ -10,7 +10,7 @@ use tracing::{error, info, warn};
 use crate::common::h11c::h11c_handshake;
 use crate::common::set_keepalive;
 use crate::common::tls::TlsServerConfig;
-use crate::context::{make_buffered_stream, ContextRef};
+use crate::context::{make_buffered_stream, ContextRef, ContextRefOps};
 use crate::listeners::Listener;
 use crate::GlobalState;
 
@@ -68,8 +68,19 @@ impl HttpListener {
                     tokio::spawn(async move {
                         let res = match this.create_context(state, source, socket).await {
                             Ok(ctx) => {
-                                h11c_handshake(ctx, queue, |_, _| async { bail!("not supported") })
-                                    .await
+                                let res = h11c_handshake(ctx.clone(), queue, |_, _| async {
+                                    bail!("not supported")
+                                })
+                                .await;
+                                if let Err(e) = res {
+                                    warn!(
+                                        "{}: handshake failed: {}\ncause: {:?}",
+                                        this.name, e, e.cause
+                                    );
+                                    // the connection has a record: end it as an error
+                                    ctx.on_error(e).await;
+                                }
+                                Ok(())
                             }
                             Err(e) => Err(e),
                         };
